@@ -17,7 +17,7 @@ def obligations(tier):
     R = ('sym_real_env.c',)
     for (n, m, ny) in ([(3, 2, 1), (3, 2, 2), (2, 2, 1)] if not th else [(3, 2, 1), (3, 2, 2), (2, 2, 1), (4, 3, 1), (4, 2, 2), (3, 3, 2)]):
         for part in (0, 1, 2):
-            if part == 2 and ny > 1 and not th: continue     # two responses: the X't=(t't)p link is attempted in thorough only (measured undecided at 120 s)
+            if part == 2 and (n, m, ny) != (2, 2, 1) and not th: continue     # beyond 2x2 with one response the X't=(t't)p link is attempted in thorough only (measured undecided at 120 s)
             obs.append(Ob(id=f'lv_pass/{n}x{m}ny{ny}/part{part}', harness='C03/lv_pass.c', tus=T, defs={'HP_N': n, 'HP_M': m, 'HP_NY': ny, 'HP_PART': part}, engine='real', unwind=8, timeout=to,
                           clause=['t = Xw, |p| = 1, X deflation', 'Y deflation, inner relation, |q| = 1', "code facts X't = (t't)p and w parallel to X'u (behind score/weight orthogonality, closed by lemmas 5..9)"][part],
                           remove=('calcConvergence',), stubs=R, real={'nomissing': True}, unwindset=()))
